@@ -497,6 +497,207 @@ def check_transport(ctx, cases, ev, stats):
             ev.add([6, [nb, c["retries"], c["advertised"] != "", outs]], cb)
 
 
+# ---------------------------------------------------------------------------------------------------------------------
+# error path of an upload: sources that fail after k bytes, writers that fail, refused encodings
+def adv_items(advertised):
+    return [t.split(";")[0].strip().encode() for t in advertised.split(",")] if advertised else []
+
+
+def fault_repro(c, cmd):
+    d = {k: v for k, v in c.items() if k not in ("attempts",)}
+    d["reproduce"] = "drv-c09 -seed <seed> -scratch DIR %s (case id %s); plain data = sha256(le64(seed)||le64(i)) stream of `size` bytes" % (cmd, c.get("id"))
+    return d
+
+
+class Picker:
+    """buffers candidate reports per key and files the most telling one: a concrete failing input before a mechanism-only
+    observation, then the highest score (e.g. the longest accepted prefix)"""
+
+    def __init__(self, ctx):
+        self.ctx, self.best = ctx, {}
+
+    def add(self, key, detail, replay, found=True, score=0):
+        rank = (1 if found else 0, score)
+        if key not in self.best or rank > self.best[key][0]:
+            self.best[key] = (rank, detail, replay, found)
+        self.best.setdefault(key + "#n", [0])[0] += 1
+
+    def flush(self):
+        for key, v in self.best.items():
+            if key.endswith("#n"):
+                continue
+            _, detail, replay, found = v
+            n = self.best[key + "#n"][0]
+            self.ctx.violation(key, detail + (" [%d cases under this key]" % n if n > 1 else ""), dict(replay, cases_under_key=n), found)
+
+
+ERR_CLASS = {0: "nil", 5: "source", 901: "writer", 415: "unacceptable"}
+
+
+def check_faults(ctx, cases, stats, model_ok):
+    """cases of drv-c09 c09fault: compress / pipe / middleware.  Returns the number of model evaluations."""
+    mvals, mcbs = [], []
+    pk, pk2 = Picker(ctx), Picker(ctx)     # pk2: filled by the model callbacks, flushed by the caller after evaluation
+
+    def madd(v, cb):
+        if model_ok:
+            mvals.append(v)
+            mcbs.append(cb)
+    for c in cases:
+        kind = c["kind"]
+        stats["kinds"][kind] = stats["kinds"].get(kind, 0) + 1
+        stats["evaluations"] += 1
+        if kind == "compress":
+            faulted = c["src_fired"] or c["wr_fired"] or not c["known"]
+            if faulted:
+                stats["nontrivial"] += 1
+            clean_dec = c["known"] and c["dec_err"] == ""
+            where = "after %d of %d bytes" % (c["src_fault"], c["size"])
+            if c["src_fired"] and c["ret"] == "nil":
+                prefix = clean_dec and c["dec_sha"] != c["full_sha"]
+                pk.add("C09:compress:read-error-swallowed",
+                              "compress(%r) returned nil although reading the source failed %s (%s); the %d bytes it wrote %s" %
+                              (c["enc"], where, c["src_kind"], c["written"],
+                               "decode cleanly to %d bytes that are not the stream: a server would digest and sign them" % c["dec_len"] if prefix
+                               else "do not decode to a different clean stream"),
+                              {"cases": [fault_repro(c, "c09fault")]}, bool(prefix), (c["dec_len"] if prefix else 0) + (10 ** 9 if c["enc"] in ("gzip", "x-snappy-framed") else 0))
+            if c["wr_fired"] and c["ret"] == "nil":
+                pk.add("C09:compress:write-error-swallowed", "compress(%r) returned nil although the writer failed during %s (after %d bytes)" %
+                              (c["enc"], c["wr_phase"], c["wr_limit"]), {"cases": [fault_repro(c, "c09fault")]}, False)
+            if not c["known"] and c["ret"] != "unacceptable":
+                pk.add("C09:compress:unknown-encoding", "compress(%r) did not refuse the encoding: %s" % (c["enc"], c["ret"]),
+                              {"cases": [fault_repro(c, "c09fault")]}, False)
+            if c["ret"] == "nil" and not faulted and not (clean_dec and c["dec_sha"] == c["full_sha"]):
+                pk.add("C09:compress:roundtrip", "compress(%r) of %d healthy bytes does not decode back to them (%s)" %
+                              (c["enc"], c["size"], c["dec_err"] or "different bytes"), {"cases": [fault_repro(c, "c09fault")]})
+            outs = [0 if c["known"] else 415,
+                    5 if c["src_fired"] else 901 if (c["wr_fired"] and c["wr_phase"] == "copy") else 0,
+                    901 if (c["wr_phase"] == "close" and c["wr_limit"] >= 0) else 0]
+            if c["src_fired"] and c["wr_fired"]:
+                continue
+
+            def cb(out, c=c, outs=outs):
+                want = ERR_CLASS.get(out[0], "other:%d" % out[0])
+                if want != c["ret"]:
+                    pk2.add("C09:correspondence:compress", "model of compress (translated program) returns %s where the implementation returned %s (effects setup/copy/close = %s)" %
+                                  (want, c["ret"], outs), {"cases": [fault_repro(c, "c09fault")], "model": out, "broken": "correspondence C09.Run.run_errflow compress_prog"}, False)
+            madd([9, [0, outs, []]], cb)
+        elif kind == "pipe":
+            if c.get("err"):
+                ctx.violation("C09:upload:harness", "pipe case could not run: %s" % c["err"], {"cases": [fault_repro(c, "c09fault")]}, False)
+                continue
+            if c["src_fired"]:
+                stats["nontrivial"] += 1
+            what = "a %d-byte %s stream whose source fails %s (after %d bytes, %s), advertised %r, Content-Encoding %r" % (
+                c["full_len"], c["stream"], c["what"], c["src_fault"], c["src_kind"], c["advertised"], c["content_enc"])
+            if c["dec_clean"] and c["dec_sha"] != c["full_sha"]:
+                pk.add("C09:upload:prefix-accepted",
+                              "%s: the request body ends cleanly (%d wire bytes) and the server side decodes %d bytes that differ from the client-side stream — it would digest and sign them" %
+                              (what, c["wire_len"], c["dec_len"]), {"cases": [fault_repro(c, "c09fault")]}, True, c["dec_len"])
+            elif c["src_fired"] and (c["wire_term"] == "clean" or c["dec_clean"]):
+                pk.add("C09:upload:read-error-clean-end",
+                              "%s: the request body ends cleanly although reading the stream failed; standalone signing of the same stream fails, the remote path signs" % what,
+                              {"cases": [fault_repro(c, "c09fault")]})
+            elif not c["src_fired"] and not c["dec_clean"]:
+                pk.add("C09:upload:healthy-rejected", "a healthy %d-byte stream under Content-Encoding %r is not delivered: wire %s, decoder %s" %
+                              (c["full_len"], c["content_enc"], c["wire_term"], c["dec_open_err"] or c["dec_err"]), {"cases": [fault_repro(c, "c09fault")]})
+            data = open(c["file"], "rb").read() if c["stream"] != "plain" else gen_data(c["seed"], c["size"])
+            k = c["src_fault"]
+            fires = 0 <= k <= len(data)
+
+            def cb(out, c=c):
+                ce, wlen, term, view, spec, alone, cerr = out
+                m_clean = term == 0
+                m_ok = view[0] == 1
+                same = (bytes.fromhex(ce).decode() == c["content_enc"] and m_clean == (c["wire_term"] == "clean") and m_ok == c["dec_clean"]
+                        and (not m_ok or sha256(bytes.fromhex(view[1])).hex() == c["dec_sha"]))
+                if not same:
+                    pk2.add("C09:correspondence:upload",
+                                  "model of the upload attempt and the implementation disagree: model encoding %r, body ends %s, server view %s; observed %r, %s, %s" %
+                                  (bytes.fromhex(ce).decode(), "cleanly" if m_clean else "with error %d" % term, "digests %d bytes" % (len(view[1]) // 2) if m_ok else "nothing",
+                                   c["content_enc"], c["wire_term"], "digests %d bytes" % c["dec_len"] if c["dec_clean"] else "nothing"),
+                                  {"cases": [fault_repro(c, "c09fault")], "broken": "correspondence C09.Run.run_upload"}, False)
+                elif view != spec or alone != spec:
+                    pk2.add("C09:model-vs-spec:upload", "model server view differs from the specification / standalone view", {"cases": [fault_repro(c, "c09fault")]}, False)
+            madd([10, [adv_items(c["advertised"]), data[:k] if fires else data, 5 if fires else 0, c["script"] or [], -1]], cb)
+        elif kind == "middleware":
+            known = c["content_enc"] in ("", "identity", "gzip", "x-snappy-framed")
+            if not known:
+                stats["nontrivial"] += 1
+            if not known and c["calls"] > 0:
+                pk.add("C09:middleware:undecodable-reached-handler", "a request with Content-Encoding %r reached the signing handler (status %d): it digests bytes that are not the client-side stream" %
+                              (c["content_enc"], c["status"]), {"cases": [fault_repro(c, "c09fault")]})
+            if known and c["body"] == "valid" and (c["calls"] != 1 or c["seen_sha"] != c["plain_sha"] or c["seen_err"] or c["status"] != 200):
+                pk.add("C09:middleware:decoded-body-differs", "a valid %r body was not handed to the handler decoded (calls %d, status %d, %s)" %
+                              (c["content_enc"], c["calls"], c["status"], c["seen_err"] or "digest differs"), {"cases": [fault_repro(c, "c09fault")]})
+            if c["body"] == "valid" or not known:
+                def cb(out, c=c, known=known):
+                    ran, decoded, refused, dk, sk = out
+                    if ran != c["calls"] or (dk >= 0) != known or sk != dk:
+                        pk2.add("C09:correspondence:middleware", "model of the middleware: handler calls %d, codec kinds %d/%d; implementation: %d calls, status %d" %
+                                      (ran, dk, sk, c["calls"], c["status"]), {"cases": [fault_repro(c, "c09fault")], "broken": "correspondence C09.Run.run_middleware"}, False)
+                madd([11, [c["content_enc"].encode(), [0 if known else 1, 1 if py_select(c["accept_enc"]) == "" else 0, 0]]], cb)
+    pk.flush()
+    return mvals, mcbs, pk2
+
+
+def check_fault_http(ctx, cases, stats, model_ok):
+    mvals, mcbs = [], []
+    pk, pk2 = Picker(ctx), Picker(ctx)
+    for c in cases:
+        stats["kinds"]["faulthttp"] = stats["kinds"].get("faulthttp", 0) + 1
+        stats["evaluations"] += 1
+        atts = c["attempts"] or []
+        rep = fault_repro(c, "c09faulthttp")
+        rep["attempts"] = atts
+        if c.get("err") and c["result"] != "error":
+            ctx.violation("C09:transport:harness", "fault scenario could not run: %s" % c["err"], {"cases": [rep]}, False)
+            continue
+        k, n = c["fault_at"], c["upload_len"]
+        fires = 0 <= k <= n
+        calls = c["fault_calls"] or []
+        if fires:
+            stats["nontrivial"] += 1
+        what = "%s upload of %d bytes, advertised %r, source failing %s (after %d bytes, %s) on %s" % (
+            c["module"], n, c["advertised"], c["what"], k, c["fault_kind"], "GetReader call(s) %s" % calls if calls else "every attempt")
+        bad = False
+        for i, a in enumerate(atts):
+            if a.get("body_sha") and a["body_sha"] != c["upload_sha"]:
+                pk.add("C09:transport:body-differs",
+                              "%s: host %d (Content-Encoding %r) read a request body of %d bytes to a clean end that differs from the %d-byte client-side stream" %
+                              (what, a["host"], a["content_enc"], a["body_len"], n), {"cases": [rep]}, True, a["body_len"])
+                bad = True
+                break
+        if not bad and c["result"] == "ok" and c["signed_sha"] != c["upload_sha"]:
+            pk.add("C09:transport:fault-signed", "%s: the client accepted a signature over a digest that is not the stream's" % what, {"cases": [rep]})
+            bad = True
+        if not bad and c["result"] == "ok" and fires and not calls:
+            pk.add("C09:transport:fault-signed", "%s: remote signing succeeds where standalone signing of the same failing stream fails" % what, {"cases": [rep]})
+        # model: one entry per client attempt
+        enc = c["advertised"] != ""          # what doRequest tests: encodings != ""
+        compressing = py_select(c["advertised"]) != ""
+        ins, enc_now = [], enc
+        for i in range(max(c["calls"], 1) + 2):
+            beh = c["script"][i] if i < len(c["script"]) else "ok"
+            code = 200 if beh == "ok" else (406 if (enc_now and compressing) else 200) if beh == "406enc" else int(beh)
+            faulty = fires and (not calls or (i + 1) in calls)
+            ins.append([code, 5 if faulty else 0, 1 if c["fault_kind"] == "ueof" else 0])
+            if code == 406 and enc_now and not faulty:
+                enc_now = False
+
+        def cb(out, c=c, rep=rep):
+            matt, res = out
+            kind = 0 if c["result"] == "ok" else 1
+            if len(matt) != c["calls"] or res[0] != kind:
+                pk2.add("C09:correspondence:dorequest-faults", "model of doRequest with failing sources: %d attempts, result %s; the real client made %d attempts, result %s" %
+                              (len(matt), res, c["calls"], c["result"]), {"cases": [rep], "broken": "correspondence C09.Run.run_attempts"}, False)
+        if model_ok:
+            mvals.append([12, [c["nhosts"], c["retries"], enc, ins]])
+            mcbs.append(cb)
+    pk.flush()
+    return mvals, mcbs, pk2
+
+
 def check_select(ctx, ev, stats):
     """selectEncoding's token handling against the python rule, through the model"""
     heads = ["", "gzip", "x-snappy-framed", "gzip, x-snappy-framed", "x-snappy-framed, gzip", "identity", "br", "gzip, gzip", "deflate, gzip, br", "x-snappy-framed, x-snappy-framed, gzip"]
@@ -554,8 +755,27 @@ def run(ctx, replay=None):
     tcases += [json.loads(l) for l in out.splitlines() if l.strip()]
     check_transport(ctx, tcases, ev, stats)
     check_select(ctx, ev, stats)
+    # error path of an upload
+    rc, out, err = ctx.drv(["c09fault"], timeout=600)
+    if rc != 0:
+        ctx.violation("C09:driver-crash", "driver c09fault failed: " + err[-400:], {"stderr": err[-2000:]}, False)
+    fcases = [json.loads(l) for l in out.splitlines() if l.strip()]
+    mv1, mc1, pka = check_faults(ctx, fcases, stats, st["model_ok"])
+    rc, out, err = ctx.drv(["c09faulthttp"], timeout=900)
+    if rc != 0:
+        ctx.violation("C09:driver-crash", "driver c09faulthttp failed: " + err[-400:], {"stderr": err[-2000:]}, False)
+    hcases2 = [json.loads(l) for l in out.splitlines() if l.strip()]
+    mv2, mc2, pkb = check_fault_http(ctx, hcases2, stats, st["model_ok"])
+    if len(fcases) < 500 or len(hcases2) < 100:
+        ctx.violation("C09:driver-crash", "fault drivers produced too few cases (%d, %d)" % (len(fcases), len(hcases2)), {"stderr": err[-2000:]}, False)
     try:
         nmodel = ev.run()
+        outs = ctx.run_model(mv1 + mv2, timeout=900, jobs=14)
+        for cb, o in zip(mc1 + mc2, outs):
+            cb(o)
+        pka.flush()
+        pkb.flush()
+        nmodel += len(outs)
     except RuntimeError as e:
         nmodel = 0
         ctx.violation("C09:model-eval", str(e)[-300:], {"output": str(e)}, False)
@@ -567,10 +787,18 @@ def run(ctx, replay=None):
                 "rule": "digesters: every block hasher x data sizes around its block size x split scripts {single, B-1, B, B+1, 2B±1, zero-length, primes, all-ones, random}, "
                         "non-trivial = a split other than one single write/read (PE images whose SizeOfHeaders exceeds the page size are excluded: DigestPE panics on them, reported to C11); "
                         "readers: every transform x abandoned reads at {0,1,511,512,513,1024,32K,32K+512,64K+512,half,len-1,len} + chunk-boundary schedule repetitions, non-trivial = a read after an abandoned one; "
-                        "transport: all failover histories of length <= 2 over 16 host behaviours + random histories (1-3 hosts, retries 0-5, 6 advertised encodings), non-trivial = more than one attempt",
-                "samples": [short(c, 1) for c in hcases[2:4]] + [{k: c[k] for k in ("module", "nhosts", "retries", "advertised", "script", "result")} for c in tcases[20:22]],
+                        "transport: all failover histories of length <= 2 over 16 host behaviours + random histories (1-3 hosts, retries 0-5, 6 advertised encodings), non-trivial = more than one attempt; "
+                        "error path: compress x {'', identity, gzip, x-snappy-framed, 3 refused names} x sizes {0,1,1000,32K,64K,64K+1,200000} x source failing (EIO / EIO with the last bytes / wrapped unexpected EOF) after "
+                        "k in {0,1,half,len-1,len,32K,64K-1,64K,64K+1} x writer failing during the copy or during Close; CompressRequest+pipe+DecompressRequest x 6 advertised lists x the same fault points "
+                        "plus every tar boundary of a jar upload (inside/after headers, inside/at the end of members, between members, before/inside the end-of-archive marker); Middleware x 8 Content-Encoding values x "
+                        "{valid, garbage, truncated} bodies; real client x 5 advertised lists x {every attempt fails, first attempt only, after a 406 fallback, after failover}; non-trivial = a fault actually fired",
+                "samples": [short(c, 1) for c in hcases[2:4]] + [{k: c[k] for k in ("module", "nhosts", "retries", "advertised", "script", "result")} for c in tcases[20:22]]
+                + [{k: c[k] for k in ("kind", "enc", "size", "src_fault", "src_kind", "wr_phase", "ret")} for c in fcases[10:12]]
+                + [{k: c[k] for k in ("kind", "advertised", "stream", "size", "src_fault", "what", "wire_term", "dec_clean")} for c in fcases if c["kind"] == "pipe"][5:7]
+                + [{k: c[k] for k in ("kind", "module", "advertised", "script", "fault_at", "fault_kind", "fault_calls", "what", "calls", "result")} for c in hcases2[3:5]],
                 "input_distribution": stats["kinds"], "model_evaluations": nmodel, "skipped": stats["skipped"]})
     ctx.notes.extend(stats["notes"])
-    return ctx.finish("proof", cov, ["io.ReadFull/io.CopyN/io.Copy loop semantics (Go library)", "gzip/snappy round trip (library; every accepted attempt's decoded body is compared with the standalone stream)",
+    return ctx.finish("proof", cov, ["io.ReadFull/io.CopyN/io.Copy loop semantics (Go library)", "gzip/snappy round trip of complete streams (library; premise codec_roundtrip of the upload theorems; every accepted attempt's decoded body is compared with the standalone stream)",
+                                     "net/http: a request whose body reader fails is aborted and the handler's body read fails; a body that ends normally is delivered completely (observed on every fault case)",
                                      "SHA-2 (hashlib and crypto/sha256 agree)", "goroutine/pipe scheduling is not modelled: observed by repetition only",
                                      "net/http transport behaviour for early responses is observed, not modelled"])
